@@ -49,7 +49,11 @@ func TestC05(t *testing.T) {
 			s := sim.New(buildWorld(c))
 			ts := sim.NewTokenState("C05")
 			s.Checkers = []func(*sim.Sim, *sim.Step) *sim.Violation{sim.CheckTokens(ts), sim.CheckMTConservation(ts)}
-			out := runOps(s, append(tokenPreamble(c.N), c.Ops...))
+			// fixed prefix: a lot of 2^63 units, part of it sent to the next chain, forwarded to an undecodable
+			// receiver (refund), and part returned
+			prefix := []sim.Op{{K: "mtmint", A: 0, B: 0, C: 0, D: 6, U: 0}, {K: "mtsend", A: 0, B: 1, C: 0, D: 0, U: 1 << 8}, {K: "round", A: 0},
+				{K: "mtsend", A: 1, B: 0, C: 1, D: 0, U: 3 | 2<<8}, {K: "round", A: 1}, {K: "mtsend", A: 1, B: 0, C: 0, D: 0, U: 2 << 8}, {K: "round", A: 2}}
+			out := runOps(s, append(append(tokenPreamble(c.N), prefix...), c.Ops...))
 			col.AddLabels(s.Labels)
 			big := false
 			for _, v := range ts.MTMinted {
@@ -68,7 +72,7 @@ func TestC05(t *testing.T) {
 }
 
 var profileC19 = []kindW{{"nftsend", 8}, {"mtsend", 8}, {"mocksend", 4}, {"flow", 6}, {"round", 6}, {"recv", 6}, {"ack", 6}, {"clean", 3},
-	{"recvclean", 3}, {"replay", 3}, {"update", 1}, {"rules", 2}, {"nftmint", 2}, {"mtmint", 2}, {"nftxfer", 1}, {"hostile", 6}, {"kwack", 1}}
+	{"recvclean", 3}, {"replay", 3}, {"update", 1}, {"rules", 2}, {"nftmint", 2}, {"mtmint", 2}, {"nftxfer", 1}, {"hostile", 6}, {"kwack", 1}, {"batch", 5}}
 
 func TestC19(t *testing.T) {
 	runProp(t, "C19",
